@@ -22,7 +22,7 @@ SPEC = {
              "(hash of recipe or ladder parameters) that contain at least one loop or conditional."),
     "assumptions": ["documented minimum versions per construct (vlib/recipes.min_version)", "recipes from vlib/recipes.Gen are typed and definitely assigned by construction"],
     "min_evaluations": {"quick": 8000, "thorough": 80000},
-    "must_reach": ["emitted", "pt_error", "skeleton_main", "skeleton_sub", "degenerate", "random_wellformed", "catalogue", "ladder"],
+    "must_reach": ["emitted", "pt_error", "skeleton_main", "skeleton_sub", "degenerate", "random_wellformed", "catalogue", "ladder", "constants"],
     "shard_timeout": {"quick": 600, "thorough": 7200},
 }
 
@@ -277,6 +277,13 @@ def run_shard(shard):
         outcome(acc, "random_wellformed", case, compile_fn(pt, lambda r=r: build.build(r), mode, v, ss, fp, assemble=(i % 5 == 0 and v >= 3), api=api), wellformed=True)
         if any(n[0] in ("if", "while", "for", "cond", "ifchain") for n in recipes.all_nodes(r)):
             acc.nontrivial.add(h(r))
+    # ---- (3b) constant mixes under assembleConstants (templates, enums, many repeated constants)
+    from . import c12
+    for i in range(shard["random"] // 4):
+        consts = c12.gen_consts(rng, rng.choice([2, 6, 12, 30]))
+        v = rng.choice([3, 5, 6, 8, 10])
+        case = {"kind": "constants", "consts": consts, "version": v}
+        outcome(acc, "constants", case, compile_fn(pt, lambda consts=consts, v=v: c12.build(pt, consts, v), "app", v, assemble=True))
     # ---- (4) catalogue
     k = 0
     for ent in opcatalog.entries(pt):
